@@ -2,7 +2,7 @@
    _calculate_reading), discharged for leaf indicators. *)
 From Coq Require Import ZArith List String Ascii Bool Lia ZifyBool.
 From Hexital Require Import Base.Prelude Base.Num Model.Manager Model.Candle Model.Readings Model.Analysis
-  Model.Engine Proofs.ListProofs Proofs.EngineProofs.
+  Model.Engine Proofs.ListProofs Proofs.EngineProofs Proofs.AnalysisProofs.
 Import ListNotations.
 Local Open Scope Z_scope.
 
@@ -234,7 +234,7 @@ Proof.
 Qed.
 Lemma hla_causal : Causal NO I (pure_calc I).
 Proof.
-  intros a d x rest Hd. unfold pure_calc, calc_reading. rewrite K.
+  intros a d x rest _ Hd. unfold pure_calc, calc_reading. rewrite K.
   rewrite (rnum_stable_mid a rest d x "high" stable_high), (rnum_stable_mid a rest d x "low" stable_low). finish_proj.
 Qed.
 End HLA.
@@ -255,7 +255,7 @@ Proof.
 Qed.
 Lemma tr_causal : Causal NO I (pure_calc I).
 Proof.
-  intros a d x rest Hd. unfold pure_calc, calc_reading. rewrite K.
+  intros a d x rest _ Hd. unfold pure_calc, calc_reading. rewrite K.
   rewrite (reading_stable_mid a rest d x "high" stable_high), (reading_stable_mid a rest d x "low" stable_low).
   rewrite (rperiod_mid a rest d x "close" 2 stable_close) by lia.
   rewrite (prev_reading_mid a rest (slot NO I d x) "close").
@@ -286,7 +286,7 @@ Proof.
 Qed.
 Lemma obv_causal : Causal NO I (pure_calc I).
 Proof.
-  intros a d x rest Hd. unfold pure_calc, calc_reading. rewrite K.
+  intros a d x rest _ Hd. unfold pure_calc, calc_reading. rewrite K.
   rewrite prev_exists_slot_mid, !prev_reading_slot_mid.
   rewrite (rnum_stable_mid a rest d x "close" stable_close), (rnum_stable_mid a rest d x "volume" stable_volume).
   rewrite (reading_stable_mid a rest d x "volume" stable_volume). finish_proj.
@@ -316,7 +316,7 @@ Proof.
 Qed.
 Lemma ema_causal : Causal NO I (pure_calc I).
 Proof.
-  intros a d x rest Hd. unfold pure_calc, calc_reading. rewrite K.
+  intros a d x rest _ Hd. unfold pure_calc, calc_reading. rewrite K.
   rewrite prev_exists_slot_mid, !prev_reading_slot_mid.
   rewrite (rnum_stable_mid a rest d x input Hinput).
   rewrite (rperiod_mid a rest d x input period Hinput Hperiod).
@@ -327,5 +327,152 @@ Proof.
     rewrite (csum_mid a rest d x input period Hinput Hperiod Rp). finish_proj.
 Qed.
 End EMA.
+
+
+(* ---------------------------------------------------------------- Amorph (pattern / movement wrappers) *)
+Section AMORPH.
+Variable f : afun.
+Hypothesis K : i_kind NO I = K_AMORPH f.
+Hypothesis Hwf : wf_afun f = true.
+Hypothesis Hst : forall n, In n (names_of f) -> stable n.
+
+Lemma amorph_pure rec st i : calc_reading NO rec I st i = (v <- pure_calc I st i ;; Ok (v, st)).
+Proof.
+  unfold pure_calc, calc_reading. rewrite K. destruct (run_afun NO f st (Some i)); reflexivity.
+Qed.
+
+Lemma slot_cur d x : cur NO (p (slot NO I d x)) = cur NO (p d).
+Proof. destruct x; [|reflexivity]. cbn [slot]. unfold setk, with_own_dict. cbn [p]. destruct (i_sub NO I); reflexivity. Qed.
+
+Lemma sim_refl names (l : store) : Forall2 (sim NO names) l l.
+Proof. induction l; constructor; [split; reflexivity|assumption]. Qed.
+
+Lemma amorph_causal : Causal NO I (pure_calc I).
+Proof.
+  intros a d x rest _ Hd. unfold pure_calc, calc_reading. rewrite K.
+  assert (E : run_afun NO f (a ++ slot NO I d x :: rest) (Some (zlen a)) = run_afun NO f (a ++ [d]) (Some (zlen a))).
+  { pose proof (zlen_nonneg a). pose proof (zlen_nonneg rest).
+    assert (Hi : 0 <= zlen a < zlen (a ++ slot NO I d x :: rest)).
+    { rewrite zlen_app. unfold zlen. cbn [List.length]. lia. }
+    rewrite <- (truncation NO (a ++ slot NO I d x :: rest) (zlen a) Hi f Hwf).
+    replace (firstn (Z.to_nat (zlen a + 1)) (a ++ slot NO I d x :: rest)) with (a ++ [slot NO I d x]).
+    2:{ replace (Z.to_nat (zlen a + 1)) with (List.length a + 1)%nat by (unfold zlen; lia).
+        rewrite firstn_app. replace (List.length a + 1 - List.length a)%nat with 1%nat by lia.
+        rewrite firstn_all2 by lia. reflexivity. }
+    apply (run_afun_sim NO (names_of f)); [|apply incl_refl].
+    apply Forall2_app; [apply sim_refl|]. constructor; [|constructor].
+    split; [apply slot_cur|]. intros n Hn. apply (Hst n Hn). }
+  rewrite E. destruct (run_afun NO f (a ++ [d]) (Some (zlen a))); reflexivity.
+Qed.
+End AMORPH.
+
+
+(* ---------------------------------------------------------------- SMA *)
+(* SMA reads input[index - period] as soon as it has a previous reading.  That index is only
+   non-negative - i.e. the look-back only stays inside the list instead of wrapping around to
+   the newest candles - because on a canonical store a reading exists from index period-1 on.
+   The invariant is proved by induction over the canonical store. *)
+Section SMA.
+Variable period : Z.
+Variable input : string.
+Hypothesis K : i_kind NO I = K_SMA period input.
+Hypothesis Hperiod : 1 <= period.
+Hypothesis Hinput : stable input.
+Hypothesis Htop : i_sub NO I = false.
+Hypothesis Hplain : has_dot nm = false /\ forall q, candle_attr NO q nm = None.
+
+Lemma sma_pure rec st i : calc_reading NO rec I st i = (v <- pure_calc I st i ;; Ok (v, st)).
+Proof.
+  unfold pure_calc, calc_reading. rewrite K.
+  destruct (prev_exists NO st nm i) as [[|]|]; cbn [bind]; try reflexivity.
+  - destruct (prev_reading NO st nm i); cbn [bind]; [|reflexivity].
+    destruct (as_num NO a); cbn [bind]; [|reflexivity].
+    destruct (rnum NO st input (i - period)); cbn [bind]; [|reflexivity].
+    destruct (rnum NO st input i); cbn [bind]; [|reflexivity].
+    destruct (divn NO _ _); reflexivity.
+  - destruct (rperiod NO st period input i) as [[|]|]; cbn [bind]; try reflexivity.
+    destruct (csum NO st period input i); cbn [bind]; [|reflexivity].
+    destruct (as_num NO a); cbn [bind]; [|reflexivity].
+    destruct (divn NO a0 _); reflexivity.
+Qed.
+
+Lemma rbc_setk_own d w : reading_by_candle NO (p (setk NO I d w)) nm = Ok w.
+Proof.
+  destruct Hplain as [Hd Ha]. unfold reading_by_candle. rewrite Hd, Ha.
+  unfold setk, with_own_dict, own, own_dict. cbn [p]. rewrite Htop. cbn [inds].
+  rewrite alist_get_set_same. reflexivity.
+Qed.
+
+Definition Inv (a : store) : Prop :=
+  forall j c v, nth_error a j = Some c -> reading_by_candle NO (p c) nm = Ok v -> is_none NO v = false ->
+  period - 1 <= Z.of_nat j.
+
+Lemma reading_last (a : store) j c name : nth_error a j = Some c ->
+  reading NO a name (Z.of_nat j) = reading_by_candle NO (p c) name.
+Proof.
+  intros H. unfold reading. assert (Hj : (j < List.length a)%nat) by (apply nth_error_Some; congruence).
+  rewrite pyidx_nonneg by (unfold zlen; lia). rewrite Nat2Z.id, H. reflexivity.
+Qed.
+
+Lemma sma_inv a : IsCanon NO I (pure_calc I) a -> Inv a.
+Proof.
+  induction 1 as [|a d v Ha IH Hd Ev]; intros j c w Hj Hr Hn; [destruct j; discriminate|].
+  destruct (Nat.lt_ge_cases j (List.length a)) as [Hlt|Hge].
+  - rewrite nth_error_app1 in Hj by assumption. eapply IH; eassumption.
+  - rewrite nth_error_app2 in Hj by assumption.
+    destruct (j - List.length a)%nat as [|k] eqn:Ek; [|destruct k; discriminate]. cbn in Hj. inversion Hj; subst c.
+    assert (j = List.length a) by lia. subst j.
+    rewrite rbc_setk_own in Hr. inversion Hr; subst w. rewrite rnd_none in Hn.
+    (* the fresh reading v is not None: either a previous reading existed or the window is full *)
+    unfold pure_calc, calc_reading in Ev. rewrite K in Ev. fold (zlen a).
+    destruct (prev_exists NO (a ++ [d]) nm (zlen a)) as [[|]|] eqn:Pe; cbn [bind] in Ev; try discriminate.
+    + (* previous reading exists: by the invariant it sits at an index >= period-1 *)
+      unfold prev_exists, prev_reading in Pe.
+      destruct (a ++ [d]) eqn:E0; [destruct a; discriminate|]. rewrite <- E0 in Pe. clear E0.
+      destruct (zlen a =? 0) eqn:Z0; [cbn in Pe; discriminate|].
+      pose proof (zlen_nonneg a). rewrite reading_app_l in Pe by lia.
+      destruct (reading NO a nm (zlen a - 1)) as [pv|] eqn:Er; cbn [bind] in Pe; [|discriminate].
+      inversion Pe as [Hpv]. apply negb_true_iff in Hpv.
+      assert (Hk : exists k ck, nth_error a k = Some ck /\ Z.of_nat k = zlen a - 1).
+      { exists (List.length a - 1)%nat. destruct (nth_error a (List.length a - 1)) eqn:En.
+        - eexists; split; [reflexivity|unfold zlen in *; lia].
+        - apply nth_error_None in En. unfold zlen in *. lia. }
+      destruct Hk as (k & ck & Hck & Hkz). rewrite <- Hkz in Er. rewrite (reading_last a k ck nm Hck) in Er.
+      pose proof (IH k ck pv Hck Er Hpv). unfold zlen in *. lia.
+    + destruct (rperiod NO (a ++ [d]) period input (zlen a)) as [[|]|] eqn:Rp; cbn [bind] in Ev; try discriminate.
+      * apply rperiod_true_bound in Rp. unfold zlen in *. lia.
+      * unfold ret in Ev. inversion Ev; subst v. discriminate.
+Qed.
+
+Lemma sma_causal : Causal NO I (pure_calc I).
+Proof.
+  intros a d x rest Ha Hd. unfold pure_calc, calc_reading. rewrite K.
+  rewrite prev_exists_slot_mid, !prev_reading_slot_mid.
+  rewrite (rnum_stable_mid a rest d x input Hinput).
+  rewrite (rperiod_mid a rest d x input period Hinput Hperiod).
+  destruct (prev_exists NO (a ++ [d]) nm (zlen a)) as [[|]|] eqn:Pe; cbn [bind]; try reflexivity.
+  - (* a previous reading exists, so zlen a >= period and index zlen a - period lies inside a *)
+    assert (Hb : 0 <= zlen a - period < zlen a).
+    { pose proof (sma_inv a Ha) as Hinv.
+      unfold prev_exists, prev_reading in Pe.
+      destruct (a ++ [d]) eqn:E0; [destruct a; discriminate|]. rewrite <- E0 in Pe. clear E0.
+      destruct (zlen a =? 0) eqn:Z0; [cbn in Pe; discriminate|].
+      pose proof (zlen_nonneg a). rewrite reading_app_l in Pe by lia.
+      destruct (reading NO a nm (zlen a - 1)) as [pv|] eqn:Er; cbn [bind] in Pe; [|discriminate].
+      inversion Pe as [Hpv]. apply negb_true_iff in Hpv.
+      assert (Hk : exists k ck, nth_error a k = Some ck /\ Z.of_nat k = zlen a - 1).
+      { exists (List.length a - 1)%nat. destruct (nth_error a (List.length a - 1)) eqn:En.
+        - eexists; split; [reflexivity|unfold zlen in *; lia].
+        - apply nth_error_None in En. unfold zlen in *. lia. }
+      destruct Hk as (k & ck & Hck & Hkz). rewrite <- Hkz in Er. rewrite (reading_last a k ck nm Hck) in Er.
+      pose proof (Hinv k ck pv Hck Er Hpv). lia. }
+    assert (E : rnum NO (a ++ slot NO I d x :: rest) input (zlen a - period) = rnum NO (a ++ [d]) input (zlen a - period)).
+    { unfold rnum. rewrite !reading_app_l by lia. reflexivity. }
+    rewrite E. finish_proj.
+  - destruct (rperiod NO (a ++ [d]) period input (zlen a)) as [[|]|] eqn:Rp; cbn [bind]; try reflexivity.
+    apply rperiod_true_bound in Rp.
+    rewrite (csum_mid a rest d x input period Hinput Hperiod Rp). finish_proj.
+Qed.
+End SMA.
 
 End Causality.
